@@ -123,6 +123,19 @@ func (g *Gen) Input(n *Node) IVal {
 
 func (g *Gen) inputRaw(n *Node) IVal {
 	r := g.R
+	if g.P.PFalsy > 0 && IsPrim(n.Kind) && n.Kind != KString && r.P(g.P.PFalsy) {
+		// falsy values are values: present, whatever front end hands them over
+		switch n.Kind {
+		case KInt, KInt32, KInt64:
+			return Pick(r, []IVal{intV(0), {Kind: "int64", I: 0}, f64V(0)})
+		case KFloat32, KFloat64:
+			return Pick(r, []IVal{f64V(0), f64V(math.Copysign(0, -1)), intV(0)})
+		case KBool:
+			return boolV(false)
+		case KTime:
+			return timeV(time.Time{})
+		}
+	}
 	if r.P(g.P.PAbsent) {
 		return g.absent()
 	}
